@@ -161,7 +161,7 @@ ALL_NP = [None, "Radius", "KNearest", "LSHNearest", "Clusters", "TreeBandit"]
 @st.composite
 def config_st(draw, lps=ALL_LP, nps=ALL_NP, arm_kinds=("int", "str", "float"), min_arms=1, max_arms=4,
               deterministic=False, with_binarizer=False, scale_ok=False, prob_ok=True, defaults_ok=False,
-              n_jobs_choices=(1,), seeds=None, lam_min=0.01):
+              n_jobs_choices=(1,), seeds=None, lam_min=0.01, tree_parallel_ok=False):
     kind, arms = draw(arms_st(arm_kinds, min_arms, max_arms))
     npn = draw(st.sampled_from(list(nps)))
     lp_names = [n for n in lps if not (npn == "TreeBandit" and n not in TREE_COMPATIBLE)]
@@ -169,6 +169,11 @@ def config_st(draw, lps=ALL_LP, nps=ALL_NP, arm_kinds=("int", "str", "float"), m
     npd = draw(np_st([npn], arms, prob_ok, defaults_ok)) if npn is not None else None
     seed = draw(seeds if seeds is not None else st.integers(0, 2 ** 20))
     nj = draw(st.sampled_from(list(n_jobs_choices)))
+    if npn == "TreeBandit" and (lp[0] == "ThompsonSampling" or lp[1].get("epsilon", 0) > 0) and not tree_parallel_ok:
+        # TreeBandit's leaf policies draw from the bandit's shared generator inside the worker tasks, so with
+        # n_jobs > 1 the outputs depend on thread scheduling (recorded under C05, finding D7); every other check
+        # keeps such bandits single-threaded so that its own oracle stays deterministic.
+        nj = 1
     cfg = {"arms": arms, "lp": lp, "np": npd, "seed": seed, "n_jobs": nj,
            "backend": ("threading" if nj != 1 else None), "arm_kind": kind}
     return cfg
